@@ -13,7 +13,10 @@
     `index_maps_agree`, `bsgs_rotations_agree`, `keys_exact` (set equality), `keys_sufficient`
     — for ALL `LogN`, `LogSlots`, depth splits accepted by the parameter literal (no enumeration);
   * level layout and schedule: `layout_consistent`, `output_level_scale` — for every literal,
-    grouped depth splits included.
+    grouped depth splits included;
+  * scale schedule constants of `Evaluator.initialize` (`roundLog2_spec`, `qDiv_one_iff`, `c2sScaling_eq`):
+    the rounding of log2 Q[0], qDiv, the C2S / S2C scalings as exact powers of two / fractions, tied by
+    the driver op `scaleconst` (a change of rounding direction is a tie mismatch).
 
   What is NOT provable here and is covered ONLY by measured probes of the harness
   (`bootstrap_precision`, `c2s_s2c_inverse`, `batch_bootstrap`, labelled `measured=1`):
@@ -314,6 +317,47 @@ example : (⟨8, 2, 4, mod1Depth true false 30 16 3 0, false, none⟩ : SchedLit
 example : (⟨2, 3, 4, 8, true, none⟩ : SchedLit).stages = .ok [17, 13, 5, 2] ∧
     (⟨2, 3, 4, 8, true, none⟩ : SchedLit).outputLevel true = some 1 := by decide
 
+/-! ## 4. Scale schedule constants of `Evaluator.initialize` -/
+
+/-- **roundLog2_spec.** `roundLog2 q` is the ROUNDED binary logarithm: `2^(e-1/2) ≤ q < 2^(e+1/2)`, stated on
+    squares. (A floor — `bits.Len64(q)-1` — satisfies this only when `q` is above the power of two.) -/
+theorem roundLog2_spec (q : Nat) (h : 1 ≤ q) :
+    2 ^ (2 * roundLog2 q) ≤ 2 * (q * q) ∧ q * q < 2 ^ (2 * roundLog2 q + 1) := by
+  have a : 2 ^ q.log2 ≤ q := Nat.log2_self_le (by omega)
+  have b : q < 2 ^ (q.log2 + 1) := Nat.lt_log2_self
+  have a2 : 2 ^ (2 * q.log2) ≤ q * q := by
+    have := Nat.mul_le_mul a a
+    rwa [← Nat.pow_add, ← Nat.two_mul] at this
+  have b2 : q * q < 2 ^ (2 * q.log2 + 2) := by
+    have := Nat.mul_lt_mul'' b b
+    rwa [← Nat.pow_add, show q.log2 + 1 + (q.log2 + 1) = 2 * q.log2 + 2 by omega] at this
+  unfold roundLog2
+  simp only
+  split
+  · rename_i hc
+    rw [show 2 * (q.log2 + 1) = (2 * q.log2 + 1) + 1 by omega, Nat.pow_succ,
+      show 2 * q.log2 + 1 + 1 + 1 = (2 * q.log2 + 2) + 1 by omega, Nat.pow_succ]
+    omega
+  · rename_i hc
+    omega
+
+/-- the division by `Q[0]` is folded into the CoeffsToSlots matrices (`qDiv < 1`) exactly when the EvalMod
+    scale is below the ROUNDED size of `Q[0]`; the C2S scaling is `2^min(round(log2 Q0), EvalModLogScale) / (K·Q0)`. -/
+theorem qDiv_one_iff (l : ScaleLit) : l.qDivNegLog = 0 ↔ roundLog2 l.q0 ≤ l.evalModLogScale := by
+  unfold ScaleLit.qDivNegLog; omega
+
+theorem c2sScaling_eq (l : ScaleLit) :
+    l.c2sScaling = (2 ^ min (roundLog2 l.q0) l.evalModLogScale, l.k * l.q0) := by
+  unfold ScaleLit.c2sScaling ScaleLit.qDivNegLog
+  congr 2
+  omega
+
+/-- a 60-bit prime just BELOW 2^60 rounds to 60 (its floor is 59): with `EvalModLogScale = 55` the matrices
+    carry `qDiv = 2^-5`, not `2^-4` -/
+example : roundLog2 1152921504606830593 = 60 ∧ Nat.log2 1152921504606830593 = 59 ∧
+    (⟨1152921504606830593, 55, 14, 40, 16, false⟩ : ScaleLit).qDivNegLog = 5 := by decide +kernel
+example : (⟨1152921504606830593, 60, 14, 40, 16, true⟩ : ScaleLit).s2cScalingLog = -7 := by decide
+
 end Lattigo.Props.C18
 
 #print axioms Lattigo.Props.C18.encapsulation_confined
@@ -328,3 +372,6 @@ end Lattigo.Props.C18
 #print axioms Lattigo.Props.C18.keys_sufficient
 #print axioms Lattigo.Props.C18.layout_consistent
 #print axioms Lattigo.Props.C18.output_level_scale
+#print axioms Lattigo.Props.C18.roundLog2_spec
+#print axioms Lattigo.Props.C18.qDiv_one_iff
+#print axioms Lattigo.Props.C18.c2sScaling_eq
